@@ -158,7 +158,7 @@ def run(chk):
     chk.assumptions += ['psutil memory-estimate rejection is not injected', 't-test accumulator: only the type fault (a wrong trace length is not detected by the code and would write out of bounds)',
                         'a fault is "really refused" iff the public call raises any Exception']
     tcases = [tlc_case(c) for c in cases]
-    dh.explore(chk, tcases, maxb, maxc, maxr, 'histories-with-rejects')
+    dh.explore(chk, tcases, maxb, maxc, 2, 'histories-with-rejects')
     if tier == 'quick':
         # every history with ONE rejected call for every case; histories with two rejected calls for three representative cases
         hists = dh.generate(chk, tcases, maxb, maxc, 1, 'histories-with-one-reject')
@@ -166,7 +166,11 @@ def run(chk):
         h2 = dh.generate(chk, [tcases[i] for i in two], maxb, maxc, 2, 'histories-with-two-rejects')
         hists += [(two[ci], h) for ci, h in h2 if sum(1 for e in h if e['op'] == 'reject') == 2]
     else:
-        hists = dh.generate(chk, tcases, maxb, maxc, maxr, 'histories-with-rejects')
+        # every history with up to TWO rejected calls for every case; three rejected calls for three representative cases
+        hists = dh.generate(chk, tcases, maxb, maxc, 2, 'histories-with-two-rejects')
+        three = [i for i, c in enumerate(cases) if c['label'] in ('cpa', 'part-auto64', 'tplb')]
+        h3 = dh.generate(chk, [tcases[i] for i in three], maxb, maxc, 3, 'histories-with-three-rejects')
+        hists += [(three[ci], h) for ci, h in h3 if sum(1 for e in h if e['op'] == 'reject') == 3]
     hists = [(ci, h) for ci, h in hists if any(e['op'] == 'reject' for e in h)]
     if tier == 'quick':
         r2 = random.Random(chk.seed + 1)
